@@ -129,6 +129,8 @@ fn fixed_overflow<T: 'static>(push: bool, typed: bool, mk: fn() -> T) {
     let i = any_narrow();
     kani::assume(i <= len);
     g().armed = true;
+    g().panic_len_on = true;
+    g().panic_len = len;
     if typed {
         let mut t = v.downcast_mut::<T>().unwrap();
         if push { t.push(mk()) } else { t.insert(i, mk()) }
